@@ -539,6 +539,8 @@ def run_purity(pid, cfg):
 
 
 def check_property(pid, tier, seed):
+    global _THOROUGH
+    _THOROUGH = (tier == "thorough")
     t0 = time.time()
     cfg = CONFIG["properties"][pid]
     os.makedirs(REPLAYS, exist_ok=True)
@@ -848,6 +850,9 @@ _WITNESS_CACHE = {}
 _WITNESS_STATS = {}
 
 
+_THOROUGH = False
+
+
 def find_witness(pid, deep=True):
     """a concrete history / schedule that violates property pid on the REAL library (excluding the clauses of
     open known findings): first the committed witness library and the cheap finders (fault enumeration on the
@@ -903,7 +908,7 @@ def find_witness(pid, deep=True):
         # assumed legs (text / JSON / level data / package forms): pseudo-random boundary-biased contents, deterministic per seed
         sp = os.path.join(REPLAYS, "search-%s-legs.json" % pid)
         seed = int(os.environ.get("VERIF_SEED", "0") or 0)
-        json.dump({"kind": "legs_fuzz", "seed": seed, "rounds": 5000 if deep else 400}, open(sp, "w"))
+        json.dump({"kind": "legs_fuzz", "seed": seed, "rounds": (50000 if _THOROUGH else 5000) if deep else 400}, open(sp, "w"))
         rc, lines, err = run_replay(sp, timeout_s=120)
         _WITNESS_STATS[pid] = (err or "").strip().split("\n")[-1][:200]
         found = [l for l in lines if l.startswith("REPLAY-FOUND ")]
@@ -920,14 +925,17 @@ def find_witness(pid, deep=True):
             res = ({"kind": "uuid_contract"}, hits, "executable form of the next() contract at boundary counter values")
     if res is None and pid not in ("C09", "C14", "C03", "C12") and deep:
         sp = os.path.join(REPLAYS, "search-%s.json" % pid)
-        q = {"kind": "search", "property": pid, "depth": 4, "budget_ms": 25000, "exclude": excl}
+        # thorough tier: a larger budget and one more level of depth (bounded exploration, never counted as proof)
+        q = {"kind": "search", "property": pid, "depth": 4, "budget_ms": 45000 if _THOROUGH else 25000, "exclude": excl}
+        if _THOROUGH:
+            q.update({"sample_ms": 45000, "sample_depth": 7, "seed": int(os.environ.get("VERIF_SEED", "0") or 0)})
         # clauses that are the executable form of the PROVED contracts (not of the ideal property) count only
         # together with a violation of the ideal clause in the same history
         q["require"] = {"C04": ["match_order.time_priority"], "C19": ["pop.fifo_order"]}.get(pid, [])
         if pid == "C19":
-            q.update({"target": "queue", "depth": 7})
+            q.update({"target": "queue", "depth": 8 if _THOROUGH else 7, "budget_ms": 90000 if _THOROUGH else 25000, "sample_ms": 0})
         json.dump(q, open(sp, "w"))
-        rc, lines, err = run_replay(sp, timeout_s=40)
+        rc, lines, err = run_replay(sp, timeout_s=((q["budget_ms"] + q.get("sample_ms", 0)) // 1000) + 15)
         _WITNESS_STATS[pid] = (err or "").strip().split("\n")[-1][:200]
         found = [l for l in lines if l.startswith("REPLAY-FOUND ")]
         hits = [l for l in lines if l.startswith("REPLAY-VIOLATION") and ("property=%s " % pid) in l]
